@@ -6,6 +6,6 @@ git -C /repo worktree remove --force $W >/dev/null 2>&1
 git -C /repo worktree add --detach $W HEAD >/dev/null 2>&1 || exit 2
 git -C $W apply /verif/seeded/$sid/patch.diff || exit 2
 s=$(date +%s)
-VERIF_REPO=$W /verif/check $pid --tier $tier > /tmp/triage_$sid.log 2>&1; rc=$?
-echo "$sid rc=$rc $(( $(date +%s)-s ))s flagged=$(grep -aE '^\[(replay|trace)\].*([1-9][0-9]* mismatches|REJECTED)' /tmp/triage_$sid.log | sed -E 's/^\[[a-z]+\] ([^:]+):.*/\1/' | sort -u | tr '\n' ',')"
+VERIF_REPO=$W ${VERIF_DIR:-/verif}/check $pid --tier $tier > /tmp/triage_${TAG:-t}_$sid.log 2>&1; rc=$?
+echo "$sid rc=$rc $(( $(date +%s)-s ))s flagged=$(grep -aE '^\[(replay|trace)\].*([1-9][0-9]* mismatches|REJECTED)' /tmp/triage_${TAG:-t}_$sid.log | sed -E 's/^\[[a-z]+\] ([^:]+):.*/\1/' | sort -u | tr '\n' ',')"
 git -C /repo worktree remove --force $W >/dev/null 2>&1
